@@ -30,13 +30,13 @@ import (
 
 const c04Meta = "TimeBegin: 2024-03-04T00:00:00Z\nTimeEnd: 2024-03-06T00:00:00Z\nProgram: verif/procs\nVersion: v0.0.0\nGoVersion: go1.23\nGOOS: linux\nGOARCH: amd64\n\n"
 
-func monoNow() int64 {
+func vfMonoNow() int64 {
 	var ts unix.Timespec
 	unix.ClockGettime(unix.CLOCK_MONOTONIC, &ts)
 	return ts.Nano()
 }
 
-type procOp struct {
+type vfProcOp struct {
 	Proc int    `json:"proc"`
 	Seq  int    `json:"seq"`
 	Name string `json:"name"`
@@ -50,7 +50,7 @@ type procOp struct {
 func c04ProcNames(seed int64, round int) []string {
 	r := verifrt.NewRand(seed, fmt.Sprintf("c04procs-names/%d", round))
 	names := []string{"shared/a", "shared/b"}
-	names = append(names, collidingNames(r, 3, 0)...)
+	names = append(names, vfCollidingNames(r, 3, 0)...)
 	for i := 0; i < 6; i++ {
 		names = append(names, fmt.Sprintf("big/%d/", i)+strings.Repeat("B", 3000+r.Intn(1000)))
 	}
@@ -88,7 +88,7 @@ func TestVerifC04ProcChild(t *testing.T) {
 			name = names[rnd.Intn(2)] // hot names
 		}
 		n := uint64(1 + rnd.Intn(9))
-		fmt.Fprintf(logf, `{"proc":%d,"seq":%d,"name":%q,"n":%d,"call":%d,"ret":-1}`+"\n", id, seq, name, n, monoNow())
+		fmt.Fprintf(logf, `{"proc":%d,"seq":%d,"name":%q,"n":%d,"call":%d,"ret":-1}`+"\n", id, seq, name, n, vfMonoNow())
 		v := ptrs[name]
 		if v == nil || rnd.Intn(8) == 0 { // look the record up again now and then
 			p, m1, err := m.newCounter(name)
@@ -105,7 +105,7 @@ func TestVerifC04ProcChild(t *testing.T) {
 			ptrs[name] = v
 		}
 		out := v.Add(n)
-		fmt.Fprintf(logf, `{"proc":%d,"seq":%d,"out":%d,"ret":%d}`+"\n", id, seq, out, monoNow())
+		fmt.Fprintf(logf, `{"proc":%d,"seq":%d,"out":%d,"ret":%d}`+"\n", id, seq, out, vfMonoNow())
 		if rnd.Intn(50) == 0 {
 			time.Sleep(time.Duration(rnd.Intn(300)) * time.Microsecond)
 		}
@@ -113,19 +113,19 @@ func TestVerifC04ProcChild(t *testing.T) {
 	os.Exit(0)
 }
 
-// snapshotShared copies a counter file that other processes are writing, in
+// vfSnapshotShared copies a counter file that other processes are writing, in
 // an order that keeps the copy consistent: hash table and records first, the
 // header (with the allocation limit, which only grows) last. A record
 // reachable in the copy was complete when it was linked, and the limit copied
 // afterwards is at least the limit at that time.
-func snapshotShared(path string) []byte {
+func vfSnapshotShared(path string) []byte {
 	// The mapping has the size the file had when it was mapped. If the
 	// allocation limit copied last exceeds it, the file has grown since and
 	// records reachable from the copied table may lie beyond the copy: map
 	// again and redo the copy (the limit bounds everything linked earlier, so
 	// limit <= len(copy) makes the copy self-contained).
 	for try := 0; try < 8; try++ {
-		out, ok := snapshotSharedOnce(path)
+		out, ok := vfSnapshotSharedOnce(path)
 		if ok {
 			return out
 		}
@@ -133,8 +133,8 @@ func snapshotShared(path string) []byte {
 	return nil // still growing: no sample this time
 }
 
-func snapshotSharedOnce(path string) ([]byte, bool) {
-	d, err := mapRO(path)
+func vfSnapshotSharedOnce(path string) ([]byte, bool) {
+	d, err := vfMapRO(path)
 	if err != nil {
 		return nil, true
 	}
@@ -161,7 +161,7 @@ func TestVerifC04Procs(t *testing.T) {
 	const check = "C04.procs"
 	res := verifrt.NewResult(check)
 	res.Rule = "rounds of 4-12 real OS processes x 3000-9000 operations (lookup-or-create through mappedFile.newCounter, then atomic add returning the new value) on one counter file with hot, bucket-colliding and page-filling names; the parent SIGKILLs up to half of them at random instants and decodes the file with the strict reference decoder in a loop meanwhile. Oracle: every sample is a well-formed file with monotone values; no child ends other than by our SIGKILL or exit 0; no operation returns an error; at the end each counter = sum of completed adds (+ any subset of the adds in flight when their process was killed); the recorded call/return histories are linearizable as fetch-and-add registers (checked offline with porcupine, nondeterministic steps for in-flight operations). distinct = rounds; all non-trivial"
-	base := vtmp("c04p-")
+	base := vfVtmp("c04p-")
 	defer os.RemoveAll(base)
 	rounds := verifrt.Scale(6, 200)
 	for rd := 0; rd < rounds; rd++ {
@@ -226,7 +226,7 @@ func TestVerifC04Procs(t *testing.T) {
 					}
 				}
 			}
-			if d := snapshotShared(path); len(d) >= verifref.PageSize && badSample == "" {
+			if d := vfSnapshotShared(path); len(d) >= verifref.PageSize && badSample == "" {
 				samples++
 				cf, err := verifref.ParseCounterFile(d)
 				if err != nil {
@@ -234,7 +234,7 @@ func TestVerifC04Procs(t *testing.T) {
 				} else {
 					for _, rec := range cf.Records {
 						if rec.Value < last[rec.Name] {
-							badSample = fmt.Sprintf("counter %q went from %d to %d", trunc40(rec.Name), last[rec.Name], rec.Value)
+							badSample = fmt.Sprintf("counter %q went from %d to %d", vfTrunc40(rec.Name), last[rec.Name], rec.Value)
 						}
 						last[rec.Name] = rec.Value
 					}
@@ -255,8 +255,8 @@ func TestVerifC04Procs(t *testing.T) {
 			res.Violate("malformed-while-shared", "a sample of the shared file taken while the processes were running: "+badSample, rp)
 		}
 		// collect the logs
-		var ops []*procOp
-		open := map[[2]int]*procOp{}
+		var ops []*vfProcOp
+		open := map[[2]int]*vfProcOp{}
 		for k, c := range kids {
 			f, err := os.Open(c.log)
 			if err != nil {
@@ -265,7 +265,7 @@ func TestVerifC04Procs(t *testing.T) {
 			sc := bufio.NewScanner(f)
 			sc.Buffer(nil, 1<<20)
 			for sc.Scan() {
-				var o procOp
+				var o vfProcOp
 				if json.Unmarshal(sc.Bytes(), &o) != nil {
 					continue // a torn last line of a killed process
 				}
@@ -287,7 +287,7 @@ func TestVerifC04Procs(t *testing.T) {
 			f.Close()
 		}
 		// failed ops have a call record but never happened: drop them
-		var hist []*procOp
+		var hist []*vfProcOp
 		done, inflight := map[string]uint64{}, map[string]uint64{}
 		for _, o := range ops {
 			if _, still := open[[2]int{o.Proc, o.Seq}]; !still {
@@ -309,7 +309,7 @@ func TestVerifC04Procs(t *testing.T) {
 			vals := cf.Counts()
 			for n, dn := range done {
 				if v := vals[n]; v < dn || v > dn+inflight[n] {
-					res.Violate("end-state", fmt.Sprintf("counter %q = %d; completed adds sum to %d, adds in flight at a kill to %d", trunc40(n), v, dn, inflight[n]), rp)
+					res.Violate("end-state", fmt.Sprintf("counter %q = %d; completed adds sum to %d, adds in flight at a kill to %d", vfTrunc40(n), v, dn, inflight[n]), rp)
 				}
 			}
 			res.HitN("records-at-end", len(cf.Records))
